@@ -1,17 +1,77 @@
-(* C43 — pre-fix stage: the faithful model of the unchanged readers panics. *)
-From PV Require Import Lib.Base C43.Model.
+(* C43 — property theorems only.  Statements are pinned by props/C43.json. *)
+From PV Require Import Lib.Base Immutable.ChunkList C43.Model C43.Proofs.
 Open Scope Z_scope.
 
-Definition w_primary : list Z := [1; 0;0;0;0; 0;0;0;56; 0;0;0;112; 0;0;0;168].
-Definition w_secondary (third : list Z) : list Z :=
-  repeat 0 56 ++ ([0;0;0;0;0;0;0;5] ++ repeat 0 48) ++ (third ++ repeat 0 48).
+(* Reading a database directory never panics: for every set of chunk files (any
+   bytes in the primary and secondary index files, any chunk-file length), in the
+   debug profile provided no primary index file reaches 16 GiB (the u32 slot counter
+   `x + 1` is the one overflow check left), in the release profile unconditionally. *)
+Theorem readers_total : forall ovf db,
+  Forall (fun e => files_ok ovf (snd e)) db -> forall p, read ovf db <> Panic p.
+Proof. intros ovf db H p. rewrite (read_total ovf db H). discriminate. Qed.
 
-Theorem readers_total_refuted_secondary :
-  read_one true (mk_files [1; 0;0;0;0; 0;0;0;10; 0;0;0;20] (repeat 0 112) 10) = Panic P_SUB.
+Theorem readers_total_release : forall db,
+  Forall (fun e => 0 <= f_chunk_len (snd e)) db -> forall p, read false db <> Panic p.
+Proof.
+  intros db H p. apply readers_total. apply Forall_forall. intros e Hin.
+  rewrite Forall_forall in H. split; [apply H, Hin | discriminate].
+Qed.
+
+(* The same for one chunk through chunk::read_blocks(dir, name): opening fails only
+   for an empty primary index (VersionMissing); otherwise the drained iterator holds
+   blocks and the two error classes, never a panic. *)
+Theorem chunk_reader_total : forall ovf f, files_ok ovf f ->
+  match read_one ovf f with
+  | Ok its => Forall item_fine its
+  | Err e => e = E_VERSION /\ f_primary f = []
+  | Panic _ => False
+  end.
+Proof.
+  intros ovf f H. pose proof (read_one_ok ovf f H) as R.
+  destruct (read_one ovf f); try exact R. tauto.
+Qed.
+
+(* "errors or fewer blocks": whatever the index files say, the blocks handed out
+   are ordered, pairwise disjoint spans inside the chunk file. *)
+Theorem blocks_are_disjoint_spans : forall ovf f its, files_ok ovf f ->
+  read_chunk ovf f = Ok its -> spans_from (f_chunk_len f) 0 its.
+Proof.
+  intros ovf f its H E. pose proof (read_chunk_ok ovf f H) as R. rewrite E in R. tauto.
+Qed.
+
+(* The fuel of the model's loops never runs out (the marker item is never produced). *)
+Theorem fuel_sufficient : forall ovf db,
+  Forall (fun e => files_ok ovf (snd e)) db -> ~ In (Bad E_FUEL) (read_db ovf db).
+Proof. intros ovf db H. apply fine_no_fuel, read_db_ok, H. Qed.
+
+(* record of the repaired defect: the pre-fix subtractions *)
+Theorem prefix_subtractions_refuted : old_sub true 10 56 = Panic P_SUB /\
+  bind (old_sub false 3 5) old_alloc = Panic P_CAP.
+Proof. exact old_sub_refuted. Qed.
+
+(* ---- non-vacuity ---- *)
+Definition ex_primary : list Z := [1; 0;0;0;0; 0;0;0;0; 0;0;0;56; 0;0;0;112; 0;0;0;112; 0;0;0;168].
+Definition ex_entry (off : Z) : list Z := [0;0;0;0;0;0;0;off] ++ repeat 7 48.
+Definition ex_secondary : list Z := ex_entry 0 ++ ex_entry 5 ++ ex_entry 9.
+Example intact_read :
+  files_ok true (mk_files ex_primary ex_secondary 20) /\
+  read true [(7, mk_files ex_primary ex_secondary 20); (8, mk_files [] [] 0)]
+    = Ok [Blk 0 5; Blk 5 4; Blk 9 11].
+Proof. split; [split; [cbn; lia | intros _; vm_compute; reflexivity] | vm_compute; reflexivity]. Qed.
+(* the inputs that made the unrepaired readers panic are now errors *)
+Example decreasing_block_offset_is_an_error :
+  read_one true (mk_files ex_primary (ex_entry 0 ++ ex_entry 5 ++ ex_entry 3) 20)
+    = Ok [Blk 0 5; Bad E_READ_BLOCK; Blk 5 15].
 Proof. vm_compute. reflexivity. Qed.
-Theorem readers_total_refuted_chunk :
-  read_one true (mk_files w_primary (w_secondary [0;0;0;0;0;0;0;3]) 10) = Panic P_SUB.
+Example huge_block_offset_is_an_error :
+  read_one true (mk_files ex_primary (ex_entry 0 ++ ex_entry 5 ++ repeat 255 56) 20)
+    = Ok [Blk 0 5; Bad E_READ_BLOCK; Blk 20 0].
 Proof. vm_compute. reflexivity. Qed.
-Theorem readers_total_refuted_alloc :
-  read_one true (mk_files w_primary (w_secondary [255;255;255;255;255;255;255;255]) 10) = Panic P_CAP.
+Example decreasing_secondary_offset_is_an_error :
+  read_one true (mk_files [1; 0;0;0;0; 0;0;0;10; 0;0;0;20] (repeat 0 112) 10)
+    = Ok [Bad E_INCONSISTENT].
+Proof. vm_compute. reflexivity. Qed.
+Example truncated_secondary_is_an_error :
+  read_one true (mk_files ex_primary (ex_entry 0 ++ ex_entry 5 ++ repeat 0 30) 20)
+    = Ok [Blk 0 5; Bad E_INCONSISTENT].
 Proof. vm_compute. reflexivity. Qed.
